@@ -13,6 +13,7 @@ type IdCustomer int64
 // gomacro:SQL ADD UNIQUE(Email)
 // gomacro:QUERY RenameCustomers UPDATE Customer SET Name = $val$ WHERE Tier = $sel$;
 type Customer struct {
+	guard    Status `gomacro-sql-guard:"#[Status.Paid]"`
 	Id       IdCustomer
 	Name     string
 	Email    string
@@ -21,7 +22,6 @@ type Customer struct {
 	Birthday Date
 	Joined   time.Time
 	Balance  money.Cents
-	guard    Status `gomacro-sql-guard:"#[Status.Paid]"`
 }
 
 // Product uses plain int64 ids, arrays, a composite and jsonb.
